@@ -100,6 +100,7 @@ def plan(tier, seed):
 
 # ------------------------------------------------------------------ enumerator part
 COLORS = ["FF0000", "00FF00", "0000FF"]
+UNDERSCORE = ["d", "a", "b_c", "a_b", "c", "b"]
 
 
 def named_tree(shape, offset=0, unnamed=False):
@@ -112,6 +113,11 @@ def named_tree(shape, offset=0, unnamed=False):
         names = {v: (str(nl - 1 - t.leaves.index(v)) if not t.children[v] else str(nl + t.internal.index(v))) for v in range(t.n)}
         if t.internal:
             names[t.internal[-1]] = "1x"   # an ancestor whose name starts like a leaf's
+    if isinstance(unnamed, str) and unnamed.startswith("underscore:"):
+        # leaf names in the package's <species>_<suffix> style whose concatenations collide ("a" + "b_c" against "a_b" + "c");
+        # every rotation of the menu is run, so that every leaf position of every shape meets every name
+        r = int(unnamed.split(":")[1])
+        names = {v: (UNDERSCORE[(t.leaves.index(v) + r) % len(UNDERSCORE)] if not t.children[v] else f"N{v}") for v in range(t.n)}
     feats = {}
     for i, v in enumerate(t.internal):
         if (i + offset) % 2 == 0:
@@ -390,6 +396,14 @@ def run_shard(shard, tier, seed):
                 if bad:
                     bad = "with nodes named by small integers: " + bad
                     case = dict(case, unnamed="digits")
+            if not bad and len(T(shape).leaves) >= 3 and not T(shape).is_binary():
+                for r in range(len(UNDERSCORE)):
+                    n_eval += 1
+                    bad = check_binarize(shape, off, unnamed=f"underscore:{r}")
+                    if bad:
+                        bad = f"with leaf names {UNDERSCORE} rotated by {r}: " + bad
+                        case = dict(case, unnamed=f"underscore:{r}")
+                        break
             if not T(shape).is_binary():
                 nt += 1
             if bad:
